@@ -25,6 +25,11 @@ def plan(tier):
                     if pen == 0.5:
                         sh.append(('native', gi, n, ('dev', sprops.V4, 0.0, d, cap), dict(unary_penalty=pen, nbest=nbest), J))
                         sh.append(('full', gi, n, ('dev', sprops.V4, -1.0, 1 if N > 12 else 2, 1200 if tier == 'quick' else 10000), dict(unary_penalty=pen, nbest=nbest), J))
+        if T > 1:
+            # beam settings: many sentences through one process with tags left outside the beam
+            for cfgb in (dict(pruning_size=1), dict(use_beta=True, beta=0.01), dict(pruning_size=2, use_beta=True, beta=0.2)):
+                sh.append(('native', gi, 2, ('dev', [0.0, -1.0, -4.0, -8.0], -1.0, 2 if not real else 1, 6000), dict(cfgb, unary_penalty=0.5, nbest=2), J))
+                sh.append(('full', gi, 2, ('dev', [0.0, -1.0, -8.0], -1.0, 1, 800), dict(cfgb, unary_penalty=0.5, nbest=1), J))
         if tier == 'thorough' and not real:
             sh.append(('native', gi, 4, ('dev', sprops.V4, -1.0, 2 if T == 1 else 1, 60000), dict(unary_penalty=0.5, nbest=3), J))
             sh.append(('full', gi, 4, ('dev', sprops.V4, -1.0, 1, 5000), dict(unary_penalty=0.5, nbest=3), J))
